@@ -297,3 +297,30 @@ Proof.
       [reflexivity|vm_compute; reflexivity|unfold e_eof; cbn; lia].
   - repeat split; vm_compute; reflexivity.
 Qed.
+
+(* ---- the generic skip template and BufferReader.Skip REGENERATED FROM THE GO SOURCE on every run
+        (tools/gotrans phase 2: SkipDecoderTpl.Skip as a function parametric in the SkipN model, with
+        structural recursion on the depth budget and loops on fuel; BufferReader.skipType/Skip over
+        the bufiox reader model) are proved equal to the hand models tskip / br_skip
+        (Proofs/GenEquivSkip.v, GenEquivBR.v); C08's agreement with the reference parser therefore
+        holds of the regenerated definitions, for every fuel large enough ---- *)
+From GV Require Import Lib.GoSem Gen.Funcs Proofs.GenLib Proofs.GenCorollariesSkip Proofs.GenCorollariesBR.
+
+Theorem C08_gen_bytes_decoder_is_ref : forall b t rfuel fuel,
+  wf b -> t < 256 -> (depth0 < rfuel)%nat -> (S (length b) < fuel)%nat ->
+  match rp inl_none depth0 t b with
+  | Ok (n, _) => g_tskip bs_skipN rfuel fuel (bs_new b) t depth0 = Ok ({| bs_b := b; bs_n := n |}, gnil)
+  | Err _ => exists s c, g_tskip bs_skipN rfuel fuel (bs_new b) t depth0 = Ok (s, Some c) /\ c <> e_fuel
+  | _ => False
+  end.
+Proof. exact g_bs_skip_depth0. Qed.
+
+Theorem C08_gen_bufferreader_skip_ok : forall D F CH, wf D -> forall c st t st' rfuel fuel,
+  RInv D F CH c st -> (depth0 < rfuel)%nat -> (r_fuel st < fuel)%nat -> t < 256 ->
+  br_skip st t = (st', Ok tt) -> g_br_skip rfuel fuel st t = Ok (st', gnil).
+Proof. exact g_br_skip_ok. Qed.
+
+Theorem C08_gen_bufferreader_skip_err : forall D F CH, wf D -> forall c st t st' e rfuel fuel,
+  RInv D F CH c st -> (depth0 < rfuel)%nat -> (r_fuel st < fuel)%nat -> t < 256 ->
+  br_skip st t = (st', Err e) -> e <> e_fuel -> g_br_skip rfuel fuel st t = Ok (st', Some e).
+Proof. exact g_br_skip_err. Qed.
